@@ -68,13 +68,14 @@ UNIT_TD = datetime.timedelta(days=1)
 # default_names: workers, teams, workplaces and components all carry the library's default name of their kind
 # ("New Worker", ...), as objects created without a name do; facility names stay unique (operators' facility skills
 # are keyed by facility name).
-_STYLE = {"ids": None, "names": None, "default_names": False}
+_STYLE = {"ids": None, "names": None, "default_names": False, "task_ids": None}
 
 
 def set_style(spec=None):
     _STYLE["ids"] = spec.get("ids") if spec else None
     _STYLE["names"] = spec.get("names") if spec else None
     _STYLE["default_names"] = bool(spec.get("default_names")) if spec else False
+    _STYLE["task_ids"] = spec.get("task_ids") if spec else None  # "rev": task ID strings in reverse lexicographic order
 
 
 def _id(prefix, i):
@@ -82,6 +83,8 @@ def _id(prefix, i):
 
 
 def tid(i):
+    if _STYLE["task_ids"] == "rev":
+        return "z%03d" % (500 - i)
     return _id("t", i)
 
 
@@ -380,12 +383,12 @@ def perturb(spec, k):
                 else:
                     it[kk] = src[kk]
 
-    rot(ps["workers"], ["cost", "solo", "skills", "abs", "mw", "fsk"])
+    rot(ps["workers"], ["cost", "solo", "skills", "abs", "mw", "fsk"] + (["team"] if k % 2 == 0 else []))
     rot(ps["teams"], ["targets", "notask"])
     for tm in ps["teams"]:
         if tm.get("notask") is None:
             tm.pop("notask", None)
-    rot(ps["facs"], ["cost", "solo", "skills", "abs"])
+    rot(ps["facs"], ["cost", "solo", "skills", "abs"] + (["wp"] if k % 2 == 0 else []))
     rot([t for t in ps["tasks"] if not t.get("auto") and not t.get("sub")], ["work", "fixw", "wr"])
     if k % 2 == 1 and ps["comps"] and not any(c.get("parent") is not None for c in ps["comps"]):
         # flat product: in the other model every component-bound task sits on component 0, the other
@@ -464,7 +467,11 @@ def morph(h, spec):
     for i, w in enumerate(spec["workers"]):
         o = h.workers[i]
         if o.team_id != tmid(w["team"]):
-            raise HarnessError("morph: worker %d changes team" % i)
+            # re-organisation between two runs: the worker leaves his team and is added to another one
+            for tm in h.teams:
+                if any(x is o for x in tm.worker_list):
+                    tm.worker_list = [x for x in tm.worker_list if x is not o]
+            h.teams[w["team"]].add_worker(o)
         o.cost_per_time = w.get("cost", 0.0)
         o.solo_working = bool(w.get("solo", False))
         put_dict(o, "workamount_skill_mean_map", {tname(int(k)): v for k, v in w.get("skills", {}).items()})
@@ -476,11 +483,19 @@ def morph(h, spec):
     for i, f in enumerate(spec["facs"]):
         o = h.facs[i]
         if o.workplace_id != wpid(f["wp"]):
-            raise HarnessError("morph: facility %d changes workplace" % i)
+            for wp in h.wps:
+                if any(x is o for x in wp.facility_list):
+                    wp.facility_list = [x for x in wp.facility_list if x is not o]
+            h.wps[f["wp"]].add_facility(o)
         o.cost_per_time = f.get("cost", 0.0)
         o.solo_working = bool(f.get("solo", False))
         put_dict(o, "workamount_skill_mean_map", {tname(int(k)): v for k, v in f.get("skills", {}).items()})
         put_list(o, "absence_time_list", f.get("abs", []))
+    # members in the order a fresh build lists them (the order decides ties in the allocation)
+    for k, tm in enumerate(h.teams):
+        tm.worker_list = [h.workers[i] for i, w in enumerate(spec["workers"]) if w["team"] == k]
+    for k, wp in enumerate(h.wps):
+        wp.facility_list = [h.facs[i] for i, f in enumerate(spec["facs"]) if f["wp"] == k]
     _wire(h, spec)
     order = spec.get("order") or list(range(len(h.tasks)))
     h.project.workflow.task_list = [h.tasks[i] for i in order]
